@@ -1,5 +1,6 @@
 import Pike.Props.C04
 import Pike.Model.LRU
+import Pike.Model.StoreMap
 /-
 C18 — purge removes the entry everywhere and touches nothing else.
 -/
@@ -119,6 +120,14 @@ theorem unknown_cache_noop (r : LRU.Reg) (name key : Str) (hv : Nat) (hn : name 
   have : ∀ c ∈ r, (if name = [] ∨ c.name = name then c.purge key hv else c) = c := by
     intro c hc; simp [hn, hno c hc]
   rw [List.map_congr_left this]; simp
+
+/-- The persisted copy (the map the `store` suite replays every real badger operation on): a completed delete leaves
+no record for that key of that store and leaves every other record as it was. -/
+theorem store_delete_exact (m : StoreMap.M) (k k' : StoreMap.K) (h : k' ≠ k) :
+    StoreMap.get (StoreMap.del m k) k = none ∧ StoreMap.get (StoreMap.del m k) k' = StoreMap.get m k' :=
+  ⟨StoreMap.get_del_same m k, StoreMap.get_del_other m k k' h⟩
+
+example : StoreMap.get (StoreMap.del (StoreMap.set (StoreMap.set [] (0, 8) "a".toList) (0, 9) "b".toList) (0, 8)) (0, 9) = some "b".toList := by decide
 
 end C18
 end Pike
